@@ -757,45 +757,39 @@ theorem Inv.congr_regs {S P : Nat → Prop} {s s' : St} (inv : Inv S P s) (hc : 
     | comp c' => simpa [Current, hc] using this
 
 /-- a notification none of whose `_set_dirty` subscribers is clean: only user handlers are called (they
-    record), dead references are pruned -/
+    record) -/
 theorem notifyLoop_quiet (rec : Rec) (k : Key) (old new : Option Int) (xs : List Sub) :
-    ∀ (act : List Sub) (s : St), (∀ h, s.progs h = []) →
+    ∀ (s : St), (∀ h, s.progs h = []) →
     (∀ c, Sub.dirty c ∈ xs → ∃ x, s.comps c = some x ∧ x.dirty = true) →
-    ∃ lg, notifyLoop rec k old new xs act s = some ({ s with log := s.log ++ lg }, .ok (act ++ xs.filter s.alive)) := by
+    ∃ lg, notifyLoop rec k old new xs s = some ({ s with log := s.log ++ lg }, .ok ()) := by
   induction xs with
-  | nil => intro act s _ _; exact ⟨[], by simp [notifyLoop]⟩
+  | nil => intro s _ _; exact ⟨[], by simp [notifyLoop]⟩
   | cons x xs ih =>
-    intro act s hp hq
+    intro s hp hq
     unfold notifyLoop
-    by_cases hal : s.alive x = true
-    · simp only [hal, Bool.not_true, Bool.false_eq_true, if_false]
+    by_cases hg : (!s.alive x || !(((s.regs k.1).subs k.2 .change).contains x)) = true
+    · rw [if_pos hg]
+      exact ih s hp (fun c' hc' => hq c' (by simp [hc']))
+    · rw [if_neg hg]
       cases x with
       | dirty c =>
         obtain ⟨y, hy, hd⟩ := hq c (by simp)
         simp only [hy, hd, if_true]
-        obtain ⟨lg, h⟩ := ih (act ++ [Sub.dirty c]) s hp (fun c' hc' => hq c' (by simp [hc']))
-        refine ⟨lg, ?_⟩
-        rw [h]; simp [hal]
+        exact ih s hp (fun c' hc' => hq c' (by simp [hc']))
       | user h =>
         simp only [hp h, readAll]
-        obtain ⟨lg, hh⟩ := ih (act ++ [Sub.user h]) { s with log := s.log ++ [⟨h, k.1, k.2, old, new⟩] } hp
+        obtain ⟨lg, hh⟩ := ih { s with log := s.log ++ [⟨h, k.1, k.2, old, new⟩] } hp
           (fun c' hc' => hq c' (by simp [hc']))
         refine ⟨⟨h, k.1, k.2, old, new⟩ :: lg, ?_⟩
         rw [hh]
-        have : St.alive { s with log := s.log ++ [⟨h, k.1, k.2, old, new⟩] } = s.alive := rfl
-        simp [hal, this]
-    · simp only [Bool.not_eq_true] at hal
-      simp only [hal, Bool.not_false, if_true]
-      obtain ⟨lg, h⟩ := ih act s hp (fun c' hc' => hq c' (by simp [hc']))
-      refine ⟨lg, ?_⟩
-      rw [h]; simp [hal]
+        simp
 
 theorem notifyT_quiet {S P : Nat → Prop} (rec : Rec) (k : Key) (old new : Option Int) {s : St} (w : Stat s)
     (inv : Inv S P s)
     (hq : ∀ c, Sub.dirty c ∈ (s.regs k.1).subs k.2 .change → ∃ x, s.comps c = some x ∧ x.dirty = true) :
     ∃ s', notifyT rec k old new s = some (s', .ok 0) ∧ Inv S P s' ∧ StaticEq s s' ∧ s'.comps = s.comps ∧
       s'.store = s.store ∧ s'.cur = s.cur ∧ s'.dead = s.dead := by
-  obtain ⟨lg, h⟩ := notifyLoop_quiet rec k old new ((s.regs k.1).subs k.2 .change) [] s w.progs hq
+  obtain ⟨lg, h⟩ := notifyLoop_quiet rec k old new ((s.regs k.1).subs k.2 .change) s w.progs hq
   unfold notifyT
   rw [h]
   refine ⟨_, rfl, ?_, ?_, rfl, rfl, rfl, rfl⟩
@@ -810,7 +804,7 @@ theorem notifyT_quiet {S P : Nat → Prop} (rec : Rec) (k : Key) (old new : Opti
         simp only [setReg_same, Reg.setSubs]
         by_cases hnt : n = k.2 ∧ t = .change
         · obtain ⟨rfl, rfl⟩ := hnt
-          simp [List.mem_filter]
+          simp [List.mem_filter, St.alive]
         · simp [hnt]
       · simp [St.setReg, ho]
   · refine ⟨rfl, fun o => ?_, fun c => (StaticEq.refl s).comps c⟩
@@ -1926,114 +1920,112 @@ structure CascadeIH (rec : Rec) : Prop where
     (∀ c, Sub.dirty c ∈ (s.regs k.1).subs k.2 .change → ∃ y, s'.comps c = some y ∧ y.dirty = true)
 
 theorem notifyLoop_cascade {rec : Rec} (ih : CascadeIH rec) (k : Key) (old new : Option Int) :
-    ∀ (xs act : List Sub) (s s' : St) (r : Except Err (List Sub)) (P : Nat → Prop), Stat s → Inv NoS P s →
+    ∀ (xs : List Sub) (s s' : St) (r : Except Err Unit) (P : Nat → Prop), Stat s → Inv NoS P s →
     (∀ c, Sub.dirty c ∈ xs → ∃ x, s.comps c = some x) →
-    notifyLoop rec k old new xs act s = some (s', r) →
-    r = .ok (act ++ xs.filter s.alive) ∧ Inv NoS P s' ∧ StaticEq s s' ∧ s'.store = s.store ∧ s'.cur = s.cur ∧
+    (∀ c, Sub.dirty c ∈ xs → Sub.dirty c ∈ (s.regs k.1).subs k.2 .change) →
+    notifyLoop rec k old new xs s = some (s', r) →
+    r = .ok () ∧ Inv NoS P s' ∧ StaticEq s s' ∧ s'.store = s.store ∧ s'.cur = s.cur ∧
     s'.dead = s.dead ∧ SameSubs s s' ∧ Dirtied s s' ∧
     (∀ c, Sub.dirty c ∈ xs → ∃ y, s'.comps c = some y ∧ y.dirty = true) := by
   intro xs
   induction xs with
   | nil =>
-    intro act s s' r P _ inv _ h
+    intro s s' r P _ inv _ _ h
     simp only [notifyLoop] at h
     injection h with h; injection h with h1 h2; subst h1 h2
-    exact ⟨by simp, inv, StaticEq.refl s, rfl, rfl, rfl, SameSubs.refl s, Dirtied.refl s, fun c hc => by simp at hc⟩
+    exact ⟨rfl, inv, StaticEq.refl s, rfl, rfl, rfl, SameSubs.refl s, Dirtied.refl s, fun c hc => by simp at hc⟩
   | cons x xs ihx =>
-    intro act s s' r P w inv hdef h
+    intro s s' r P w inv hdef hsub h
     unfold notifyLoop at h
-    by_cases hal : s.alive x = true
-    · rw [if_neg (by simp [hal])] at h
-      cases x with
-      | dirty c =>
-        obtain ⟨cx, hcx⟩ := hdef c (by simp)
-        simp only [hcx] at h
-        by_cases hcd : cx.dirty = true
-        · rw [if_pos hcd] at h
-          obtain ⟨h1, h2, h3, h4, h5, h6, h7, h8, h9⟩ := ihx (act ++ [Sub.dirty c]) s s' r P w inv
-            (fun c' hc' => hdef c' (by simp [hc'])) h
-          refine ⟨by rw [h1]; simp [hal], h2, h3, h4, h5, h6, h7, h8, ?_⟩
+    cases x with
+    | dirty c =>
+      have hg : (!s.alive (Sub.dirty c) || !(((s.regs k.1).subs k.2 .change).contains (Sub.dirty c))) = false := by
+        have := hsub c (by simp)
+        simp [this]
+      rw [hg] at h
+      simp only [Bool.false_eq_true, if_false] at h
+      obtain ⟨cx, hcx⟩ := hdef c (by simp)
+      simp only [hcx] at h
+      by_cases hcd : cx.dirty = true
+      · rw [if_pos hcd] at h
+        obtain ⟨h1, h2, h3, h4, h5, h6, h7, h8, h9⟩ := ihx s s' r P w inv
+          (fun c' hc' => hdef c' (by simp [hc'])) (fun c' hc' => hsub c' (by simp [hc'])) h
+        refine ⟨h1, h2, h3, h4, h5, h6, h7, h8, ?_⟩
+        intro c' hc'
+        rcases List.mem_cons.mp hc' with hc' | hc'
+        · injection hc' with hc'; subst hc'; exact h8.dirty hcx hcd
+        · exact h9 c' hc'
+      · rw [if_neg hcd] at h
+        have hcd' : cx.dirty = false := by cases hh : cx.dirty <;> simp_all
+        -- `_set_dirty`: mark, then notify the Computable's own subscribers
+        have invd : Inv NoS (fun q => P q ∨ q = c) (s.setComp c { cx with dirty := true }) := by
+          refine (inv.mono_P (P' := fun q => P q ∨ q = c) (fun q hq => Or.inl hq)).update_comp hcx rfl rfl
+            (fun h' => absurd h' (by simp [NoS])) (fun _ => ?_) rfl
+            (fun p v hp => inv.parents c cx hcx p v hp) (fun p v hp => ⟨v, hp⟩) (fun hd0 => by simp at hd0)
+            (fun v hv _ => ⟨hv, Or.inr (Or.inr rfl)⟩)
+          obtain ⟨e1, e2⟩ := inv.evald c cx hcx (by simp [NoS])
+          refine ⟨fun hf => ?_, fun hf => e2 hf⟩
+          have := (e1 hf).1; simp [hcd'] at this
+        have sed : StaticEq s (s.setComp c { cx with dirty := true }) := StaticEq.of_setComp hcx rfl rfl rfl
+        cases hn : rec (.notify (cx.owner, cx.name) cx.value none) (s.setComp c { cx with dirty := true }) with
+        | none => simp [hn] at h
+        | some res =>
+          obtain ⟨s1, r1⟩ := res
+          obtain ⟨g1, g2, g3, g4, g5, g6, g7, g8, g9⟩ := ih.notify _ _ _ _ s1 r1 _ (w.of_staticEq sed) invd hn
+          rw [hn] at h
+          subst g1
+          simp only at h
+          have sed1 : StaticEq s s1 := sed.trans g3
+          -- all subscribers of `c` are dirty now: `c` is no longer pending
+          have inv1 : Inv NoS P s1 := by
+            refine g2.drop_P ?_
+            intro q y kk hq hyd hkk hm
+            have hk0 : (s.setComp c { cx with dirty := true }).keyOf (.comp c) = some (cx.owner, cx.name) := by
+              simp [St.keyOf]
+            have : s1.keyOf (.comp c) = some (cx.owner, cx.name) := by rw [g3.keyOf]; exact hk0
+            rw [this] at hkk; cases hkk
+            obtain ⟨z, hz, hzd⟩ := g9 q ((g7.2 _ _ _ q).mp hm)
+            rw [hq] at hz; cases hz; simp [hyd] at hzd
+          have hdirt : Dirtied s s1 := by
+            refine Dirtied.trans (s' := s.setComp c { cx with dirty := true }) ?_ g8
+            intro q
+            by_cases hq : q = c
+            · subst hq
+              refine ⟨fun hnone => by simp [hcx] at hnone, fun y hy => ?_⟩
+              rw [hcx] at hy; cases hy
+              exact Or.inr ⟨hcd', setComp_same _ _ _⟩
+            · rw [setComp_ne _ _ hq]
+              exact ⟨id, fun y hy => Or.inl hy⟩
+          have hss : SameSubs s s1 := g7
+          obtain ⟨h1, h2, h3, h4, h5, h6, h7, h8, h9⟩ := ihx s1 s' r P (w.of_staticEq sed1) inv1
+            (fun c' hc' => by
+              obtain ⟨z, hz⟩ := hdef c' (by simp [hc'])
+              obtain ⟨z', hz', _⟩ := sed1.defined hz
+              exact ⟨z', hz'⟩)
+            (fun c' hc' => (hss.2 _ _ _ c').mpr (hsub c' (by simp [hc']))) h
+          refine ⟨h1, h2, sed1.trans h3, h4.trans g4, h5.trans g5, h6.trans g6,
+            hss.trans h7, hdirt.trans h8, ?_⟩
           intro c' hc'
           rcases List.mem_cons.mp hc' with hc' | hc'
-          · injection hc' with hc'; subst hc'; exact h8.dirty hcx hcd
+          · injection hc' with hc'; subst hc'
+            obtain ⟨z, hz, hzd⟩ := g8.dirty (setComp_same s c' { cx with dirty := true }) rfl
+            exact h8.dirty hz hzd
           · exact h9 c' hc'
-        · rw [if_neg hcd] at h
-          have hcd' : cx.dirty = false := by cases hh : cx.dirty <;> simp_all
-          -- `_set_dirty`: mark, then notify the Computable's own subscribers
-          have invd : Inv NoS (fun q => P q ∨ q = c) (s.setComp c { cx with dirty := true }) := by
-            refine (inv.mono_P (P' := fun q => P q ∨ q = c) (fun q hq => Or.inl hq)).update_comp hcx rfl rfl
-              (fun h' => absurd h' (by simp [NoS])) (fun _ => ?_) rfl
-              (fun p v hp => inv.parents c cx hcx p v hp) (fun p v hp => ⟨v, hp⟩) (fun hd0 => by simp at hd0)
-              (fun v hv _ => ⟨hv, Or.inr (Or.inr rfl)⟩)
-            obtain ⟨e1, e2⟩ := inv.evald c cx hcx (by simp [NoS])
-            refine ⟨fun hf => ?_, fun hf => e2 hf⟩
-            have := (e1 hf).1; simp [hcd'] at this
-          have sed : StaticEq s (s.setComp c { cx with dirty := true }) := StaticEq.of_setComp hcx rfl rfl rfl
-          cases hn : rec (.notify (cx.owner, cx.name) cx.value none) (s.setComp c { cx with dirty := true }) with
-          | none => simp [hn] at h
-          | some res =>
-            obtain ⟨s1, r1⟩ := res
-            obtain ⟨g1, g2, g3, g4, g5, g6, g7, g8, g9⟩ := ih.notify _ _ _ _ s1 r1 _ (w.of_staticEq sed) invd hn
-            rw [hn] at h
-            subst g1
-            simp only at h
-            have sed1 : StaticEq s s1 := sed.trans g3
-            -- all subscribers of `c` are dirty now: `c` is no longer pending
-            have inv1 : Inv NoS P s1 := by
-              refine g2.drop_P ?_
-              intro q y kk hq hyd hkk hm
-              have hk0 : (s.setComp c { cx with dirty := true }).keyOf (.comp c) = some (cx.owner, cx.name) := by
-                simp [St.keyOf]
-              have : s1.keyOf (.comp c) = some (cx.owner, cx.name) := by rw [g3.keyOf]; exact hk0
-              rw [this] at hkk; cases hkk
-              obtain ⟨z, hz, hzd⟩ := g9 q ((g7.2 _ _ _ q).mp hm)
-              rw [hq] at hz; cases hz; simp [hyd] at hzd
-            have hdirt : Dirtied s s1 := by
-              refine Dirtied.trans (s' := s.setComp c { cx with dirty := true }) ?_ g8
-              intro q
-              by_cases hq : q = c
-              · subst hq
-                refine ⟨fun hnone => by simp [hcx] at hnone, fun y hy => ?_⟩
-                rw [hcx] at hy; cases hy
-                exact Or.inr ⟨hcd', setComp_same _ _ _⟩
-              · rw [setComp_ne _ _ hq]
-                exact ⟨id, fun y hy => Or.inl hy⟩
-            have hss : SameSubs s s1 := g7
-            obtain ⟨h1, h2, h3, h4, h5, h6, h7, h8, h9⟩ := ihx (act ++ [Sub.dirty c]) s1 s' r P (w.of_staticEq sed1) inv1
-              (fun c' hc' => by
-                obtain ⟨z, hz⟩ := hdef c' (by simp [hc'])
-                obtain ⟨z', hz', _⟩ := sed1.defined hz
-                exact ⟨z', hz'⟩) h
-            have hal1 : s1.alive = s.alive := by funext y; simp [St.alive, g6]
-            refine ⟨by rw [h1, hal1]; simp [hal], h2, sed1.trans h3, h4.trans g4, h5.trans g5, h6.trans g6,
-              hss.trans h7, hdirt.trans h8, ?_⟩
-            intro c' hc'
-            rcases List.mem_cons.mp hc' with hc' | hc'
-            · injection hc' with hc'; subst hc'
-              obtain ⟨z, hz, hzd⟩ := g8.dirty (setComp_same s c' { cx with dirty := true }) rfl
-              exact h8.dirty hz hzd
-            · exact h9 c' hc'
-      | user hh =>
+    | user hh =>
+      by_cases hg : (!s.alive (Sub.user hh) || !(((s.regs k.1).subs k.2 .change).contains (Sub.user hh))) = true
+      · rw [if_pos hg] at h
+        obtain ⟨h1, h2, h3, h4, h5, h6, h7, h8, h9⟩ := ihx s s' r P w inv
+          (fun c' hc' => hdef c' (by simp [hc'])) (fun c' hc' => hsub c' (by simp [hc'])) h
+        exact ⟨h1, h2, h3, h4, h5, h6, h7, h8, fun c' hc' => h9 c' (by simpa using hc')⟩
+      · rw [if_neg hg] at h
         simp only [w.progs hh, readAll] at h
         have invl : Inv NoS P { s with log := s.log ++ [⟨hh, k.1, k.2, old, new⟩] } :=
           inv.congr rfl rfl rfl inv.curStack
         have sel : StaticEq s { s with log := s.log ++ [⟨hh, k.1, k.2, old, new⟩] } :=
           ⟨rfl, fun _ => rfl, (StaticEq.refl s).comps⟩
-        obtain ⟨h1, h2, h3, h4, h5, h6, h7, h8, h9⟩ := ihx (act ++ [Sub.user hh]) _ s' r P (w.of_staticEq sel) invl
-          (fun c' hc' => hdef c' (by simp [hc'])) h
-        have hal1 : St.alive { s with log := s.log ++ [⟨hh, k.1, k.2, old, new⟩] } = s.alive := rfl
-        refine ⟨by rw [h1, hal1]; simp [hal], h2, sel.trans h3, h4, h5, h6, h7, h8, ?_⟩
-        intro c' hc'
-        exact h9 c' (by simpa using hc')
-    · have hal' : s.alive x = false := by cases hh : s.alive x <;> simp_all
-      rw [if_pos (by simp [hal'])] at h
-      obtain ⟨h1, h2, h3, h4, h5, h6, h7, h8, h9⟩ := ihx act s s' r P w inv
-        (fun c' hc' => hdef c' (by simp [hc'])) h
-      refine ⟨by rw [h1]; simp [hal'], h2, h3, h4, h5, h6, h7, h8, ?_⟩
-      intro c' hc'
-      rcases List.mem_cons.mp hc' with hc' | hc'
-      · subst hc'; simp at hal'
-      · exact h9 c' hc'
+        obtain ⟨h1, h2, h3, h4, h5, h6, h7, h8, h9⟩ := ihx _ s' r P (w.of_staticEq sel) invl
+          (fun c' hc' => hdef c' (by simp [hc'])) (fun c' hc' => hsub c' (by simp [hc'])) h
+        exact ⟨h1, h2, sel.trans h3, h4, h5, h6, h7, h8, fun c' hc' => h9 c' (by simpa using hc')⟩
 
 
 theorem notifyT_cascade {rec : Rec} (ih : CascadeIH rec) (k : Key) (old new : Option Int) {s s' : St} {r : R}
@@ -2042,20 +2034,20 @@ theorem notifyT_cascade {rec : Rec} (ih : CascadeIH rec) (k : Key) (old new : Op
     SameSubs s s' ∧ Dirtied s s' ∧
     (∀ c, Sub.dirty c ∈ (s.regs k.1).subs k.2 .change → ∃ y, s'.comps c = some y ∧ y.dirty = true) := by
   unfold notifyT at h
-  cases hl : notifyLoop rec k old new ((s.regs k.1).subs k.2 .change) [] s with
+  cases hl : notifyLoop rec k old new ((s.regs k.1).subs k.2 .change) s with
   | none => simp [hl] at h
   | some res =>
     obtain ⟨s1, r1⟩ := res
-    obtain ⟨h1, h2, h3, h4, h5, h6, h7, h8, h9⟩ := notifyLoop_cascade ih k old new _ [] s s1 r1 P w inv
+    obtain ⟨h1, h2, h3, h4, h5, h6, h7, h8, h9⟩ := notifyLoop_cascade ih k old new _ s s1 r1 P w inv
       (fun c hc => by
         obtain ⟨_, x, hx, _⟩ := inv.subsOf k.1 k.2 .change c hc
-        exact ⟨x, hx⟩) hl
+        exact ⟨x, hx⟩) (fun c hc => hc) hl
     rw [hl] at h
     subst h1
     simp only at h
     injection h with h; injection h with g1 g2; subst g1 g2
     have hss : SameSubs s1 (s1.setReg k.1 ((s1.regs k.1).setSubs k.2 .change
-        ([] ++ ((s.regs k.1).subs k.2 .change).filter s.alive))) := by
+        (((s1.regs k.1).subs k.2 .change).filter s1.alive))) := by
       refine ⟨fun o => ?_, fun o n t q => ?_⟩
       · by_cases ho : o = k.1
         · subst ho; simp [Reg.names]
@@ -2065,8 +2057,7 @@ theorem notifyT_cascade {rec : Rec} (ih : CascadeIH rec) (k : Key) (old new : Op
           simp only [setReg_same, Reg.setSubs]
           by_cases hnt : n = k.2 ∧ t = .change
           · obtain ⟨rfl, rfl⟩ := hnt
-            simp only [and_self, if_true, List.nil_append, List.mem_filter, alive_dirty, and_true]
-            exact (h7.2 _ _ _ q).symm
+            simp [List.mem_filter]
           · simp [hnt]
         · simp [St.setReg, ho]
     refine ⟨rfl, h2.congr_regs rfl rfl rfl hss.1 hss.2, ?_, h4, h5, h6, h7.trans hss, ?_, ?_⟩
